@@ -2435,6 +2435,7 @@ class TagNode(_ElementWrappingNode, NodeBase):
         self, normalize_space: Literal["default", "preserve"] = "default"
     ):
         with _wrapper_cache:
+            self.merge_text_nodes()
             self._reduce_whitespace_of_descendants(normalize_space)
 
     def _reduce_whitespace_of_descendants(
